@@ -701,12 +701,12 @@ def record_and_validate(run, plans):
 
 def probe_drift(run, impl):
     """inputs outside the stated domain: never violations"""
-    for src, ref in (("bit_and(-1, 5)", 5), ("bit_not(-1)", 0), ("bit_shift_right(-2147483648, 1)", 3221225472),
+    for src, ref in (("bit_and(-1, 5)", 5), ("bit_not(-1)", 0), ("bit_shift_right(-2147483648, 1)", 1073741824),
                      ("bit_or(4294967296, 1)", 1), ("bit_shift_left(-1, 4)", 4294967280)):
         o = impl.call(src)
         if not (o[0] == "val" and o[1] == ref):
             run.drift("bitwise-outside-0..2^32-1", {"src": src, "got": show(o), "two's complement reading": ref})
-    for src in ("pow(2, -1)", "prod([])", "range(0, 5, 0)", "chunks([1, 2], 0 - 1)"):
+    for src in ("pow(2, -1)", "prod([])", "range(0, 5, 0)"):
         o = impl.call(src)
         run.drift("outside-the-defined-domain", {"src": src, "got": show(o)})
 
@@ -763,7 +763,7 @@ def run(run):
     ncases += len(bseen)
     run.sample({"BITS": recs[len(recs) // 2]})
 
-    plans = plan_events(rng, 60 if quick else 1500)
+    plans = plan_events(rng, 200 if quick else 1500)
     ncalls, events, srcs, tres = record_and_validate(run, plans)
     run.sample({"TRACE": events[:3]})
     probe_drift(run, ck.impl)
